@@ -384,8 +384,18 @@ func runFreshTrees(p *Program, r *RuleResult) {
 }
 
 func runEnvFirst(p *Program, r *RuleResult) {
-	for _, name := range []string{"typecheckFunctionDefinitions", "typecheckProcesses"} {
-		fn := p.Func(processPkg, name)
+	drv := findTypecheckDriver(p)
+	for _, ph := range drv.Phases {
+		fn := ph.Common().StaticCallee()
+		hasJudgement := false
+		for _, c := range p.callsIn(fn) {
+			if c.Common().IsInvoke() && c.Common().Method.Name() == "typecheckForm" {
+				hasJudgement = true
+			}
+		}
+		if !hasJudgement {
+			continue
+		}
 		view := p.View(fn)
 		var judgements []*ssa.Call
 		for _, c := range p.callsIn(fn) {
